@@ -479,11 +479,18 @@ func (k PublicKeyBTCEC) Bytes() []byte {
 
 // Address hashes the key with a RIPEMD-160 hash
 func (k PublicKeyBTCEC) Address() Address {
-	return nil
+	var p secp256k1.PubKeySecp256k1
+	copy(p[:], k.key.SerializeCompressed())
+	return p.Address().Bytes()
 }
 
+// VerifyBytes checks a signature made by PrivateKeyBTCEC.Sign (DER encoded, over msg as given)
 func (k PublicKeyBTCEC) VerifyBytes(msg []byte, sig []byte) bool {
-	return true
+	s, err := btcec.ParseDERSignature(sig, btcec.S256())
+	if err != nil {
+		return false
+	}
+	return s.Verify(msg, &k.key)
 }
 
 func (k PublicKeyBTCEC) Equals(PubkeyBTCEC PublicKey) bool {
